@@ -341,6 +341,7 @@ func allChecksRaw() []*Check {
 				// the data-race clause on C10's operation family (text, JSON, dry-run, walk, mkdir, verify on documents with
 				// blank / malformed rows and # roots): the happens-before detector rides on the same harness
 				gjf("C11.race.ops.n2", "VerifC10", 2, "C10.noleak", "C10.end"),
+				{Name: "C11.long.n2.ryield", Pkg: "gtree", Entry: "VerifC11Long", N: 2, FSModel: true, Sched: "fifo-ryield", Expect: []string{"C11.long.returns", "C11.long.ctxerr.only", "C11.noleak/long", "C11.stops/reader"}},
 				gjf("C11.fail.n3", "VerifC11Fail", 3, "C11.returns/parse", "C11.returns/validate", "C11.returns/write", "C11.returns/callback", "C11.returns/fs", "C11.returns/reader", "C11.reported/parse", "C11.noleak/parse", "C11.noleak/write", "C11.noleak/fs"),
 				gjf("C11.cancel.n1", "VerifC11Cancel", 1, "C11.cancel.returns", "C11.noleak/cancel"),
 				gjf("C11.cancel.n2", "VerifC11Cancel", 2, "C11.cancel.returns", "C11.ctxerr.only", "C11.ctxerr/precancelled", "C11.cancel.never", "C11.noleak/cancel"),
@@ -349,6 +350,8 @@ func allChecksRaw() []*Check {
 			},
 			Thorough: []Job{
 				gjf("C11.race.ops.n3", "VerifC10", 3, "C10.noleak", "C10.end"),
+				{Name: "C11.long.n6.ryield", Pkg: "gtree", Entry: "VerifC11Long", N: 6, FSModel: true, Sched: "fifo-ryield", Expect: []string{"C11.long.returns", "C11.long.ctxerr.only", "C11.noleak/long", "C11.stops/reader"}},
+				{Name: "C11.long.n4.lifo-ryield", Pkg: "gtree", Entry: "VerifC11Long", N: 4, FSModel: true, Sched: "lifo-ryield", Expect: []string{"C11.long.returns", "C11.long.ctxerr.only", "C11.noleak/long", "C11.stops/reader"}},
 				{Name: "C11.race.ops.n2.lifo", Pkg: "gtree", Entry: "VerifC10", N: 2, FSModel: true, Sched: "lifo", Expect: []string{"C10.noleak", "C10.end"}},
 				gjf("C11.fail.n4", "VerifC11Fail", 4, "C11.returns/parse", "C11.returns/validate", "C11.returns/write", "C11.returns/callback", "C11.returns/fs", "C11.returns/reader", "C11.reported/parse", "C11.noleak/parse", "C11.noleak/write", "C11.noleak/fs"),
 				{Name: "C11.fail.n4.lifo", Pkg: "gtree", Entry: "VerifC11Fail", N: 4, FSModel: true, Sched: "lifo", Expect: []string{"C11.returns/parse", "C11.noleak/parse"}},
@@ -363,7 +366,7 @@ func allChecksRaw() []*Check {
 				{Name: "C11.fail.n3.rnd8", Pkg: "gtree", Entry: "VerifC11Fail", N: 3, FSModel: true, Sched: "rnd8", Expect: []string{"C11.returns/parse", "C11.noleak/parse"}},
 				{Name: "C11.root.n3.rnd8", Pkg: "gtree", Entry: "VerifC11Root", N: 3, FSModel: true, Sched: "rnd8", Expect: []string{"C11.root.returns", "C11.noleak/root"}},
 			},
-			Bounds: "N root blocks (quick 3, thorough 4) of which an arbitrary subset fails, one failure stage per run: parse error, name validation error, writer refusing every write, walk callback error, mkdir with pre-existing roots, failing reader; cancellation of the caller's context at synchronisation event k (k = 0 i.e. before the call, 1..20, then every 8th up to 172, or never) for text output, walk and JSON on N=2/3 roots, and for the From-Root massive routes; a blocked main goroutine with nothing runnable is a deadlock (call never returns); verifQuiesce runs everything runnable after the return and counts goroutines still alive. Policies FIFO (all), LIFO and last-ready select (thorough), pseudo-random schedules (rndK: run-queue pick and select rotation are a deterministic function of a seed in 0..K-1 that is a case-split symbol of the path; K=4 quick on the one-root cancel job, K=8 thorough). NOT decided: arbitrary schedules; the data-race clause (no memory model: the unsynchronised Parser.isSharpRoot write named in the anchors cannot be decided here - since the D7 repair each block has its own parser, so the field is no longer shared).",
+			Bounds: "N root blocks (quick 3, thorough 4) of which an arbitrary subset fails, one failure stage per run: parse error, name validation error, writer refusing every write, walk callback error, mkdir with pre-existing roots, failing reader; cancellation of the caller's context at synchronisation event k (k = 0 i.e. before the call, 1..20, then every 8th up to 172, or never) for text output, walk and JSON on N=2/3 roots, and for the From-Root massive routes; a blocked main goroutine with nothing runnable is a deadlock (call never returns); verifQuiesce runs everything runnable after the return and counts goroutines still alive. Policies FIFO (all), LIFO and last-ready select (thorough), pseudo-random schedules (rndK: run-queue pick and select rotation are a deterministic function of a seed in 0..K-1 that is a case-split symbol of the path; K=4 quick on the one-root cancel job, K=8 thorough). Long block (VerifC11Long): one root with 6 (quick) / 8-10 (thorough) children, or a heading with that many list rows -- a single block for the splitter -- under the read-yield policies (every row read is a scheduling point and a cancellation instant), cancellation at event 0..24: the call returns nil or the context's error, leaves nothing behind, and at most one more row is read after it has returned. Data-race clause: every job runs with the happens-before (vector-clock) detector over the interpreted execution (go, channels, select, Mutex, WaitGroup, errgroup, context, sync/atomic, sync.Pool as synchronisation edges; loads, stores, map accesses, append, copy of library code as accesses; harness memory is user memory except the io.Writer the library writes to), also on C10's whole operation family (VerifC10: text, JSON, dry-run, walk, mkdir, verify on documents with blank / malformed rows and # roots); a report is confirmed on a -race build of the native harness. NOT decided: arbitrary schedules; weak-memory effects; races on memory touched only by host-level stubs. (The unsynchronised Parser.isSharpRoot write named in the anchors is gone since the D7 repair: each block has its own parser.)",
 			Assume: append([]string{parseContract, pathContract, fsModel, "engine-native goroutines/channels/select/sync/context/errgroup under a deterministic cooperative scheduler; every explored schedule is legal, not every legal schedule is explored"}, commonAssume...),
 		},
 		{
